@@ -181,6 +181,17 @@ def fp_sort_of(*vs):
     return None
 
 
+class Mat(dict):
+    """model of a 2-d numpy array filled cell by cell: a[i, j] = v, a[i, j], a.copy()"""
+
+    def __init__(self, shape, cells=()):
+        dict.__init__(self, cells)
+        self.shape = tuple(shape)
+
+    def copy(self):
+        return Mat(self.shape, self.items())
+
+
 class Vec:
     """model of a 1-d numpy float array: element-wise arithmetic, sequential sum (numpy's pairwise summation is the
     plain left-to-right loop for fewer than 8 elements)"""
@@ -487,6 +498,10 @@ class Interp:
             return ctx.branch(v != 0)
         if isinstance(v, (list, tuple, dict, str)):
             return len(v) > 0
+        if isinstance(v, Out):
+            return any((not isinstance(p_, str)) or p_ for p_ in v.parts)     # rendered pieces are never empty
+        if isinstance(v, (Sci, Fixed, Suffix, Mant, ExpStr, Digits)):
+            return True
         if isinstance(v, Rec):
             return True
         raise EncodingError("truth of %r" % (v,))
@@ -561,6 +576,10 @@ class Interp:
             return ("strmeth", o, e.attr)
         if isinstance(o, dict) and e.attr in ("items", "values", "keys"):
             return ("dictmeth", o, e.attr)
+        if isinstance(o, dict) and e.attr in ("clear", "copy", "get", "pop", "update"):
+            return ("pyfunc", lambda ctx_, *a, **k: getattr(o, e.attr)(*a, **k))
+        if isinstance(o, Mat) and e.attr == "shape":
+            return o.shape
         raise EncodingError("attribute %s of %r" % (e.attr, type(o).__name__))
 
     def e_Subscript(self, ctx, env, e):
@@ -741,7 +760,12 @@ class Interp:
                     fr *= 10
                     kk -= 1
                 if fr == 1:
-                    return SymReal(sr.t * p10(kk), sr.dec + kk, sr.sign)
+                    out = SymReal(sr.t * p10(kk), sr.dec + kk, sr.sign)
+                    if getattr(sr, "dec_digits", None) is not None:
+                        out.dec_digits = sr.dec_digits
+                        # 10 ** k is an int for k >= 0 and C pow(10.0, k) for k < 0: the host computes the same
+                        out.fpops = sr.fpops + [("mul", float(10 ** kk))]
+                    return out
             raise EncodingError("SymReal multiplied by something that is not a power of ten")
         l, r = num(l), num(r)
         if isinstance(op, ast.Add):
@@ -783,6 +807,10 @@ class Interp:
                 raise EncodingError("`is` on values")
             return same if isinstance(op, ast.Is) else not same
         if isinstance(op, (ast.In, ast.NotIn)):
+            if isinstance(r, dict):
+                if is_z3(l):
+                    raise EncodingError("symbolic dict key")
+                return (l in r) if isinstance(op, ast.In) else (l not in r)
             if not isinstance(r, (tuple, list)):
                 raise EncodingError("`in` on non-tuple")
             if is_z3(l):
@@ -956,6 +984,15 @@ def b_float(I, ctx, v):
         sci = v.sci
         t = z3.ToReal(sci.digits) / p10(sci.p)
         return SymReal(t if sci.sign > 0 else -t, 0, sci.sign)
+    if isinstance(v, Sci):
+        # float("d.dde+XX"): the decimal value exactly (over the reals); the digits are remembered so that a later
+        # int() of a product can be evaluated with binary64 rounding (see b_int)
+        ex = ctx.pick(v.exp) if is_z3(v.exp) else v.exp
+        t = z3.ToReal(v.digits) * p10(ex - v.p)
+        out = SymReal(t if v.sign > 0 else -t, ex, v.sign)
+        out.dec_digits = (v.digits, v.p, ex)
+        out.fpops = []
+        return out
     if isinstance(v, (int, F)):
         return F(v)
     if isinstance(v, SymReal) or is_real(v) or is_fp(v):
@@ -964,6 +1001,26 @@ def b_float(I, ctx, v):
 
 
 def b_int(I, ctx, v):
+    if isinstance(v, SymReal) and getattr(v, "dec_digits", None) is not None:
+        # int(float("<digits>e<exp>") * 10**k ...) is a binary64 computation (the product can fall just below the
+        # integer the real arithmetic gives, and int() truncates)
+        digits, p, ex = v.dec_digits
+        if p > 3:
+            raise EncodingError("decimal literal with more than 4 significant digits")
+        # the literal has only 9 * 10**p possible digit strings: the binary64 computation is done by the host for each
+        # (float() of the literal, the recorded multiplications, int()), the solver gets the table
+        out = ctx.fresh("trunc")
+        rows = []
+        for D in range(10 ** p, 10 ** (p + 1)):
+            sD = str(D)
+            val = float("%s.%se%d" % (sD[0], sD[1:] or "0", ex))
+            for op, c in v.fpops:
+                val = val * c
+            if v.sign < 0:
+                val = -val
+            rows.append(z3.And(digits == D, out == int(val)))
+        ctx.assume(z3.Or(*rows))
+        return out
     if isinstance(v, ExpStr):
         return v.e
     if isinstance(v, bool):
@@ -1007,6 +1064,25 @@ def b_abs(I, ctx, v):
     if not is_z3(v):
         return abs(v)
     return z3.If(v >= 0, v, -v)
+
+
+def b_round(I, ctx, v, nd=None):
+    """round(x, nd) over the reals: the nearest multiple of 10**-nd (either neighbour on a tie - binary ties do not
+    follow the decimal rule anyway)"""
+    if nd is None:
+        nd = 0
+    if is_z3(nd):
+        nd = ctx.pick(nd)
+    if not isinstance(nd, int):
+        raise EncodingError("round() with non-integer digits")
+    if isinstance(v, (int, F)) and not isinstance(v, bool):
+        return F(round(F(v), nd))
+    t = v.t if isinstance(v, SymReal) else to_real(to_term(num(v)))
+    n = ctx.fresh("rnd")
+    sc = t * p10(nd)
+    ctx.assume(z3.ToReal(n) - F(1, 2) <= sc)
+    ctx.assume(sc <= z3.ToReal(n) + F(1, 2))
+    return z3.ToReal(n) / p10(nd)
 
 
 def b_isinstance(I, ctx, v, t):
@@ -1106,7 +1182,10 @@ MODULES = {"os", "math", "np", "numpy"}
 BUILTINS = {
     "os.path.join": lambda I, ctx, *a: ("path",) + tuple(a),
     "float": b_float, "int": b_int, "min": b_minmax(True), "max": b_minmax(False), "abs": b_abs,
-    "isinstance": b_isinstance, "divmod": b_divmod, "math.ceil": b_ceil, "len": b_len,
+    "isinstance": b_isinstance, "round": b_round, "divmod": b_divmod, "math.ceil": b_ceil, "len": b_len,
+    "np.empty": lambda I, ctx, shape, **k: Mat(shape if isinstance(shape, tuple) else (shape,)),
+    "np.zeros": lambda I, ctx, shape, **k: Mat(shape, {(i, j): F(0) for i in range(shape[0]) for j in range(shape[1])})
+    if isinstance(shape, tuple) and len(shape) == 2 else Vec([F(0)] * (shape if isinstance(shape, int) else shape[0])),
     "np.asarray": b_asarray, "np.array": b_asarray, "np.fromiter": b_asarray, "np.sum": b_np1("sum"),
     "np.mean": b_np1("mean"), "np.square": b_np1("square"), "np.dot": lambda I, ctx, a, b: vec_method(I, ctx, a, "dot", (b,), {}),
     "np.var": b_np1("var"), "np.std": b_np1("std"), "sum": lambda I, ctx, v, start=0: seq_sum(I, ctx, list(v), start),
